@@ -130,6 +130,28 @@ func (p *Parser) current() Token {
 
 // Term parses a term followed by a full stop.
 func (p *Parser) Term() (Term, error) {
+	t, err := p.readTerm()
+	if err != nil {
+		return nil, err
+	}
+
+	if err := p.unusedArgs(); err != nil {
+		return nil, err
+	}
+
+	return t, nil
+}
+
+// unusedArgs returns an error if there are arguments left that no placeholder has taken.
+func (p *Parser) unusedArgs() error {
+	if len(p.args) != 0 {
+		return fmt.Errorf("too many arguments for placeholders: %s", p.args)
+	}
+	return nil
+}
+
+// readTerm parses a term followed by a full stop. The text may go on with more terms and more placeholders.
+func (p *Parser) readTerm() (Term, error) {
 	t, err := p.term(1201)
 	switch err {
 	case nil:
@@ -146,10 +168,6 @@ func (p *Parser) Term() (Term, error) {
 	default:
 		p.backup()
 		return nil, unexpectedTokenError{actual: p.current()}
-	}
-
-	if len(p.args) != 0 {
-		return nil, fmt.Errorf("too many arguments for placeholders: %s", p.args)
 	}
 
 	return t, nil
